@@ -31,6 +31,7 @@ type Relay struct {
 	consumers []subscription
 
 	cache             Cache
+	cachePutMutex     stdsync.Mutex   // Serializes cache insertions of concurrent Puts.
 	defaultMsgHandler func(*Envelope) // Handles messages with no subscriber.
 }
 
@@ -144,7 +145,12 @@ func (p *Relay) Put(e *Envelope) {
 	}
 
 	if !found {
-		if !p.cache.Put(e) {
+		// Several Puts may get here at once as they only hold the read lock,
+		// but Cache.Put modifies the cache.
+		p.cachePutMutex.Lock()
+		cached := p.cache.Put(e)
+		p.cachePutMutex.Unlock()
+		if !cached {
 			p.defaultMsgHandler(e)
 		}
 	}
